@@ -90,3 +90,16 @@ META["C31"] = dict(technique="TLC exhaustive model checking of SolicitOwn.tla (s
     note="Interleavings on the real wrapper are forced with a stream whose Close blocks (gate inside the critical section) plus random races; not every statement-level interleaving of the model is replayed.",
     text="AtMostOneOwner / AcceptedNeverClosed / ClosedNeverReturns: proved on the statement-level model for all interleavings; on the real code for every small set of "
          "matching local solicitations sharing one incoming stream, for the schedule 'Close parked inside stream.Close while Accept starts', and for random races.")
+REGISTRY["C16"] = ("fn", "c16")
+REGISTRY["C17"] = ("fn", "c17")
+REGISTRY["C18"] = ("fn", "c18")
+META["C16"] = dict(technique=_FN_TECH, note=_FN_NOTE,
+    text="Envelope.tla transcribes the share accounting of BuildEnvelope (totals, override, sequential placement) and defines Reach / Opens with ideal crypto; "
+         "a seeded sample of the 26 688 configurations is sealed with the real code and unsealed with every subset of the recipient keys plus an unrelated key: "
+         "success iff reach >= threshold+1, payload identical, SharesAvailable / SharesNeeded / UnlockedGrantIndexes equal to the spec.")
+META["C17"] = dict(technique=_FN_TECH, note=_FN_NOTE,
+    text="TLC checks Accepts(c) => Opens(c, all keys) on all 26 688 configurations of the design; the sampled configurations are replayed: BuildEnvelope accepts exactly the "
+         "configurations the spec accepts and every accepted one opens with all recipient keys.")
+META["C18"] = dict(technique=_FN_TECH, note=_FN_NOTE,
+    text="EnvelopeTamper.tla: for every base configuration x mutation class x verifier context the outcome of unsealing is within the allowed set "
+         "(never a different payload; other context => ErrContextMismatch; payload / envelope-id tampering => failure); wire-level truncation, bit flips and garbage never panic.")
